@@ -41,6 +41,7 @@ structure CaseSt where
   chain : Option Run := none
   chainSpec : Option StCheck := none
   prev : Array Sig := #[]
+  prevCtl : List Bool := []
   cyc : Nat := 0
   diffed : Bool := false
   failed : Bool := false
@@ -60,6 +61,7 @@ structure D where
   lens : List (String × Nat) := []
   kinds : List (String × Nat) := []
   fails : List (String × Nat) := []
+  obs : List (String × Nat) := []
 
 def bump (h : List (String × Nat)) (k : String) (n : Nat := 1) : List (String × Nat) :=
   match h with
@@ -208,15 +210,18 @@ def stageStep (sigs : Array Sig) (ctlBits : List Bool) (ac : DAcc × List Bool) 
   let a := match err with
     | some e =>
       let nxt := match a.cs.descs[i+1]? with | some (d2 : Desc) => d2.kind | none => "end"
-      a.fail s!"seq:{desc.kind}>{nxt}" s!"stage={i} {st.name} cyc={a.cs.cyc} {e}"
+      a.fail s!"seq:{desc.kind}" s!"stage={i} {st.name} next={nxt} cyc={a.cs.cyc} {e}"
     | none => a
   let d := a.d
   let d := { d with ops := d.ops + 1, tin := d.tin + (if bi.v && bi.r then 1 else 0),
                     backpressured := d.backpressured + (if bo.v && !bo.r then 1 else 0) }
   ({ a with cs := { a.cs with stages := a.cs.stages.set! i st' }, d := d }, chainCtl)
 
-/-- interface law at boundary `j` between the previous and the current cycle -/
-def lawStep (sigs : Array Sig) (a : DAcc) (j : Nat) : DAcc :=
+/-- interface law at boundary `j` between the previous and the current cycle.
+    The signature `law:stall` is reserved for exactly one shape: the output of `strm::stall` offered a beat with ready low,
+    the stall condition was low in that cycle and is high in this one, the stall's input still offers the same beat and the
+    output valid is now low. Every other failure of the output law gets a different signature. -/
+def lawStep (sigs : Array Sig) (ctlBits : List Bool) (a : DAcc) (j : Nat) : DAcc :=
   let p := a.cs.prev[j]!; let q := sigs[j]!
   if p.v && !p.r then
     let a := { a with d := { a.d with lawEvents := a.d.lawEvents + 1 } }
@@ -224,7 +229,12 @@ def lawStep (sigs : Array Sig) (a : DAcc) (j : Nat) : DAcc :=
       if j == 0 then a.diff "harness producer violates the interface law"
       else
         let desc : Desc := a.cs.descs[j-1]!
-        a.fail s!"law:{desc.kind}" s!"stage={j-1} {desc.name} cyc={a.cs.cyc} output offered {showBeat p.b} with ready=0, next cycle valid={q.v} payload={showBeat q.b}"
+        let cPrev := a.cs.prevCtl.getD (j-1) false
+        let cNow := ctlBits.getD (j-1) false
+        let inNow := sigs[j-1]!
+        let stallShape := desc.usesCtl && !cPrev && cNow && !q.v && inNow.v && inNow.b == p.b
+        let sig := if stallShape then s!"law:{desc.kind}" else if desc.usesCtl then s!"law:{desc.kind}-other" else s!"law:{desc.kind}"
+        a.fail sig s!"stage={j-1} {desc.name} cyc={a.cs.cyc} output offered {showBeat p.b} with ready=0, next cycle valid={q.v} payload={showBeat q.b} stall_prev={cPrev} stall_now={cNow}"
     else a
   else a
 
@@ -257,25 +267,32 @@ def processCycle (cs : CaseSt) (d : D) (ws : List String) : CaseSt × D × List 
         | none => a
       | none => a
     let a := { a with d := { a.d with tout := a.d.tout + (if bn.v && bn.r then 1 else 0) } }
-    let a := if a.cs.prev.size == n + 1 then (List.range (n+1)).foldl (lawStep sigs) a else a
-    ({ a.cs with prev := sigs, cyc := a.cs.cyc + 1 }, { a.d with cycles := a.d.cycles + 1 }, a.out)
+    let a := if a.cs.prev.size == n + 1 then (List.range (n+1)).foldl (lawStep sigs ctlBits) a else a
+    ({ a.cs with prev := sigs, prevCtl := ctlBits, cyc := a.cs.cyc + 1 }, { a.d with cycles := a.d.cycles + 1 }, a.out)
 
 def endCase (cs : CaseSt) (d : D) : D × List String :=
   let a : DAcc := { cs := cs, d := d }
-  -- after the drain phase everything accepted must have come out; the failure is attributed to the stage that blocks:
-  -- the most downstream boundary that still offers a beat which is not taken in the last logged cycle
+  -- after the drain phase (consumer ready in every cycle, nothing stalled):
+  -- * every boundary quiet but a stage has emitted less than the specification of what it accepted: beats are LOST -> PROPFAIL
+  -- * some boundary still offers a beat that is never taken: the chain is stuck (a liveness matter, not part of this
+  --   property's statement) -> counted observation `OBS`, attributed to the stage that blocks
   let n := cs.stages.size
   let undel := (List.range n).filter fun i => let st : StCheck := cs.stages[i]!; st.expected.size != st.nout
   let chainUndel := match cs.chainSpec with | some c => c.expected.size != c.nout | none => false
+  let kindAt (i : Nat) : String := match cs.descs[i]? with | some (d : Desc) => d.kind | none => "end"
   let a := if undel.isEmpty && !chainUndel then a else
     let blocked := ((List.range (n+1)).filter fun j => match cs.prev[j]? with | some (p : Sig) => p.v && !p.r | none => false).getLast?
-    let j := match blocked with | some j => j | none => undel.head?.getD 0
-    let kindAt (i : Nat) : String := match cs.descs[i]? with | some (d : Desc) => d.kind | none => "end"
-    let later := (List.range n).filter fun i => i > j && (match (cs.descs[i]? : Option Desc) with | some (Desc.red r _) => decide (r > 1) | _ => false)
-    let nxt := match later.head? with | some i => kindAt i | none => kindAt (j+1)
-    let i0 := undel.head?.getD j
+    let i0 := undel.head?.getD 0
     let st : StCheck := cs.stages[i0]!
-    a.fail s!"undelivered:{kindAt j}>{nxt}" s!"blocked_at_stage={j} first_incomplete_stage={i0} {st.name} accepted={st.nin} specified_out={st.expected.size} emitted={st.nout}"
+    match blocked with
+    | some j =>
+      let later := (List.range n).filter fun i => i > j && (match (cs.descs[i]? : Option Desc) with | some (Desc.red r _) => decide (r > 1) | _ => false)
+      let nxt := match later.head? with | some i => kindAt i | none => kindAt (j+1)
+      let sig := s!"undelivered:{kindAt j}>{nxt}"
+      { a with d := { a.d with obs := bump a.d.obs sig },
+               out := a.out ++ [s!"OBS case={cs.id} kind={sig} blocked_at_stage={j} first_incomplete_stage={i0} {st.name} accepted={st.nin} specified_out={st.expected.size} emitted={st.nout}"] }
+    | none =>
+      a.fail s!"lost:{kindAt i0}" s!"stage={i0} {st.name} all boundaries idle but accepted={st.nin} specified_out={st.expected.size} emitted={st.nout}"
   let d := a.d
   let hist := cs.descs.foldl (fun h (dsc : Desc) => bump h dsc.kind) d.hist
   ({ d with cases := d.cases + 1, hist := hist, lens := bump d.lens (toString cs.descs.size) }, a.out)
@@ -320,4 +337,4 @@ def main : IO Unit := do
   let d ← loop stdin {} #[]
   IO.println ("SUMMARY {" ++ s!"\"cases\": {d.cases}, \"diffs\": {d.diffs}, \"propfails\": {d.propfails}, \"ops\": {d.ops}, \"cycles\": {d.cycles}, " ++
     s!"\"transfers_in\": {d.tin}, \"transfers_out\": {d.tout}, \"law_events\": {d.lawEvents}, \"backpressured\": {d.backpressured}, " ++
-    s!"\"hist\": {jsonHist d.hist}, \"chain_len\": {jsonHist d.lens}, \"stream_kind\": {jsonHist d.kinds}, \"fails\": {jsonHist d.fails}" ++ "}")
+    s!"\"hist\": {jsonHist d.hist}, \"chain_len\": {jsonHist d.lens}, \"stream_kind\": {jsonHist d.kinds}, \"fails\": {jsonHist d.fails}, \"obs\": {jsonHist d.obs}" ++ "}")
